@@ -148,6 +148,15 @@ def run(ctx: Ctx) -> None:
     for a, k_ in ALGS:
         for si in range(8):
             ctx.nontrivial.add(f"b:{a}:{k_}:{si}")
+    # (b') the same wire octets when two threads use the shared algorithm objects with *different* keys: every
+    # one-preemption schedule (source-line granularity) of sign/verify pairs, outputs checked by refimpl
+    from . import c20
+    from .common import pmap
+    cpairs = [(k, a, b, 1, ctx.seed, 4) for k in ("oct256", "EC:P-256") for a, b in (("sign", "sign_ks"), ("sign_ks", "verify2"), ("sign2", "sign_ks"), ("verify", "sign_ks"))]
+    for (kind, a, b, na, nb), n, found in pmap(c20.explore, cpairs, chunksize=1, procs=8):
+        ctx.evaluations += n
+        for pr, pre, first in found[:2]:
+            ctx.violation(f"jwswire:threads {a}||{b} [{kind}] -> {pr.split(':', 1)[-1].strip()[:60]}", {"kind": kind, "ops": [a, b], "preempts": pre, "first": first, "problem": pr})
     # (c) published vectors
     _pi = __import__("harness.common", fromlist=["_pool_init"])._pool_init
     _pi()
